@@ -74,6 +74,8 @@ def gen_cases(rng, tier, info):
         h.delete("Big", cond=("bin", "eq", ("col", "K"), ("lit", 2)))
         h.obs(); h.reopen(); h.obs()
         cases.append(Case("boundary-%d" % j, h.cmds))
+    for name, h in G.scenario_histories(rng):
+        cases.append(Case("scn-" + name, h.cmds))
     # the empty string through every write path (insert, update of a plain / shared / key cell) and every close mode:
     # the format has no empty string, it must come back as the null it is stored as, and the file must stay readable
     for j, mode in enumerate(["flush", "into_inner", "drop"]):
